@@ -152,7 +152,8 @@ func ZZ_C09_list() {
 	names := []string{"a", "lv", "s", "t", "u"}
 	fv := []interface{}{rt.Int64("fa"), NewUintNode(1, rt.Uint8("flv")), rt.String("fs", 2), rt.Bool("ft"), rt.Uint64("fu")}
 	slots := make([]interface{}, 5)
-	values := map[string]interface{}{"nope": 1}
+	// keys unknown to the template are ignored, whatever they look like and whatever they hold
+	values := map[string]interface{}{"nope": 1, "...[9]": "zz", "...": int64(3), "a[0]": nil}
 	// lvkind: the item inserted for lv brings its own variable, and the same map has a value
 	// under that name: 1 a name unknown to the template, 2 the name of template variable a
 	// (consumed by the same fill).  The inserted item is inserted as is.
